@@ -1,8 +1,165 @@
-//! C11 — stub, to be written.
+//! C11: witness and clause selectors return real, extremal members.
+//!
+//! `C11.sel <bdd> => sat_witness first_valuation last_valuation most_positive most_negative
+//!                   first_clause last_clause most_fixed most_free necessary_clause is_clause is_valuation`
+//! `C11.rand <bdd> <flips> => random_valuation random_clause`   (each call gets a fresh `CoinRng` over the same flips)
+//! `C11.nc <bdd> => …` / `C11.ncrand <bdd> <flips> => …`        same observations on a valid but NON-canonical diagram
+//!                   (model correspondence only: the property is about canonical diagrams)
+//! An `Option` result is printed as the value or `none`, a panic as `panic`.
 #[path = "../common.rs"]
 mod common;
 use common::*;
+use biodivine_lib_bdd::*;
+use rand::Rng;
 
-pub fn run(key: &str, _a: &[String], _out: &mut Out) { panic!("unknown key {}", key) }
-pub fn gen(_tier: Tier, _rng: &mut Rng64, _out: &mut Out) {}
+fn s(x: &str) -> String { x.to_string() }
+
+fn show_val(r: Option<Option<BddValuation>>) -> String {
+    match r { None => s("panic"), Some(None) => s("none"), Some(Some(v)) => fmt_valuation(&v) }
+}
+fn show_clause(r: Option<Option<BddPartialValuation>>, n: usize) -> String {
+    match r { None => s("panic"), Some(None) => s("none"), Some(Some(c)) => fmt_partial(&c, n) }
+}
+fn show_bool(r: Option<bool>) -> String {
+    match r { None => s("panic"), Some(true) => s("1"), Some(false) => s("0") }
+}
+fn parse_flips(x: &str) -> Vec<bool> { if x == "~" { vec![] } else { x.chars().map(|c| c == '1').collect() } }
+
+pub fn run(key: &str, a: &[String], out: &mut Out) {
+    match key {
+        "C11.sel" | "C11.nc" => {
+            let b = Bdd::from_string(&a[0]);
+            let n = b.num_vars() as usize;
+            let obs = vec![
+                show_val(catch(|| b.sat_witness())),
+                show_val(catch(|| b.first_valuation())),
+                show_val(catch(|| b.last_valuation())),
+                show_val(catch(|| b.most_positive_valuation())),
+                show_val(catch(|| b.most_negative_valuation())),
+                show_clause(catch(|| b.first_clause()), n),
+                show_clause(catch(|| b.last_clause()), n),
+                show_clause(catch(|| b.most_fixed_clause()), n),
+                show_clause(catch(|| b.most_free_clause()), n),
+                show_clause(catch(|| b.necessary_clause()), n),
+                show_bool(catch(|| b.is_clause())),
+                show_bool(catch(|| b.is_valuation())),
+            ];
+            out.case(key, a, &obs);
+        }
+        "C11.rand" | "C11.ncrand" => {
+            let b = Bdd::from_string(&a[0]);
+            let n = b.num_vars() as usize;
+            let flips = parse_flips(&a[1]);
+            let rv = catch(|| { let mut r = CoinRng::new(flips.clone()); b.random_valuation(&mut r) });
+            let rc = catch(|| { let mut r = CoinRng::new(flips.clone()); b.random_clause(&mut r) });
+            out.case(key, a, &[show_val(rv), show_clause(rc, n)]);
+        }
+        _ => panic!("unknown key {}", key),
+    }
+}
+
+/// a few-node diagram over `n` variables: the canonical diagram of a function of `k` variables whose
+/// levels are spread over `0..n` (arbitrary gaps above the root, between nodes and above the terminals)
+fn gap_bdd(rng: &mut Rng64, n: usize, k: usize) -> String {
+    let tt = random_tt(rng, k);
+    let mut levels: Vec<usize> = Vec::new();
+    while levels.len() < k {
+        let l = rng.below(n as u64) as usize;
+        if !levels.contains(&l) { levels.push(l); }
+    }
+    levels.sort();
+    let t = canon_triples(k, &tt);
+    let mapped: Vec<(usize, usize, usize)> = t.iter().enumerate()
+        .map(|(i, (v, l, h))| if i < 2 { (n, *l, *h) } else { (levels[*v], *l, *h) }).collect();
+    fmt_triples(&mapped)
+}
+
+fn flips_for(rng: &mut Rng64, n: usize) -> String {
+    let len = match rng.below(8) { 0 => 0, 1 => rng.below(n as u64 + 1) as usize, _ => n + rng.below(3) as usize };
+    let v: Vec<bool> = match rng.below(6) {
+        0 => vec![true; len],
+        1 => vec![false; len],
+        _ => (0..len).map(|_| rng.bool()).collect(),
+    };
+    fmt_bools(&v)
+}
+
+pub fn gen(tier: Tier, rng: &mut Rng64, out: &mut Out) {
+    let thorough = tier == Tier::Thorough;
+    // the coin generator really yields the recorded booleans for the one call the selectors use
+    {
+        let pattern = [true, false, false, true, true, false];
+        let mut r = CoinRng::new(pattern.to_vec());
+        for p in pattern { assert_eq!(r.gen_bool(0.5), p, "CoinRng does not reproduce gen_bool(0.5)"); }
+        assert!(!r.gen_bool(0.5), "an exhausted CoinRng must yield false");
+    }
+    // --- constants over 0..3 variables and a few large variable counts
+    for n in [0usize, 1, 2, 3, 17, 60] {
+        for c in [false, true] {
+            let b = fmt_triples(&canon_triples(0, &[c]).iter().map(|(_, l, h)| (n, *l, *h)).collect::<Vec<_>>());
+            run("C11.sel", &[b.clone()], out);
+            for f in ["~", "1", "0", "10110"] { run("C11.rand", &[b.clone(), s(f)], out); }
+        }
+    }
+    // --- exhaustive small universes: all functions over n <= 3, every flip list of length n
+    for n in 0..=3usize {
+        let count = 1u64 << (1u64 << n);
+        for t in 0..count {
+            let b = fmt_bdd(&bdd_of_tt(n, &tt_from_index(n, t)));
+            run("C11.sel", &[b.clone()], out);
+            for f in 0..(1usize << n) { run("C11.rand", &[b.clone(), fmt_bools(&val_of_index(n, f))], out); }
+            run("C11.rand", &[b.clone(), s("~")], out);
+        }
+    }
+    // --- n = 4: all 65 536 functions (thorough) or a sample (quick)
+    let n4: u64 = if thorough { 65536 } else { 3000 };
+    for i in 0..n4 {
+        let t = if thorough { i } else { rng.below(65536) };
+        let b = fmt_bdd(&bdd_of_tt(4, &tt_from_index(4, t)));
+        run("C11.sel", &[b.clone()], out);
+        let k = if thorough { 2 } else { 1 };
+        for _ in 0..k { run("C11.rand", &[b.clone(), flips_for(rng, 4)], out); }
+    }
+    // --- random functions over 5..8 variables (density classes, structured families)
+    let rounds = if thorough { 60000 } else { 2500 };
+    for _ in 0..rounds {
+        let n = 5 + rng.below(4) as usize;
+        let b = fmt_bdd(&random_bdd(rng, n));
+        run("C11.sel", &[b.clone()], out);
+        for _ in 0..2 { run("C11.rand", &[b.clone(), flips_for(rng, n)], out); }
+    }
+    // --- single cubes and single valuations (and near misses) over 1..10 variables
+    let rounds = if thorough { 8000 } else { 600 };
+    for _ in 0..rounds {
+        let n = 1 + rng.below(10) as usize;
+        let size = 1usize << n;
+        let mask = if rng.chance(1, 2) { size - 1 } else { rng.next() as usize & (size - 1) };
+        let val = rng.next() as usize & mask;
+        let mut tt: Vec<bool> = (0..size).map(|i| i & mask == val).collect();
+        if rng.chance(1, 3) { let j = rng.below(size as u64) as usize; tt[j] = !tt[j]; }
+        let b = fmt_bdd(&bdd_of_tt(n, &tt));
+        run("C11.sel", &[b.clone()], out);
+        run("C11.rand", &[b.clone(), flips_for(rng, n)], out);
+    }
+    // --- few-node diagrams over 10..60 variables with level gaps
+    let rounds = if thorough { 60000 } else { 3000 };
+    for i in 0..rounds {
+        // the first third stays at n <= 12 so that the brute-force predicate applies
+        let n = if i % 3 == 0 { 10 + rng.below(3) as usize } else { 10 + rng.below(51) as usize };
+        let k = 1 + rng.below(6) as usize;
+        let b = gap_bdd(rng, n, k);
+        run("C11.sel", &[b.clone()], out);
+        run("C11.rand", &[b.clone(), flips_for(rng, n)], out);
+    }
+    // --- valid but non-canonical diagrams: correspondence of the model only (panics included)
+    let rounds = if thorough { 20000 } else { 1500 };
+    for _ in 0..rounds {
+        let n = 2 + rng.below(6) as usize;
+        let b = random_bdd(rng, n);
+        let v = fmt_bdd(&noncanon_variant(rng, &b));
+        run("C11.nc", &[v.clone()], out);
+        run("C11.ncrand", &[v.clone(), flips_for(rng, n)], out);
+    }
+}
+
 fn main() { harness_main(gen, run) }
